@@ -130,3 +130,9 @@ Theorem difference_leaves : forall x y, sorted_cu x -> sorted_cu y ->
   forall t, leaf t -> (cov (cu_FromDifference x y) t <-> cov x t /\ ~ cov y t).
 Proof. exact C11_SetOps.difference_spec. Qed.
 Print Assumptions difference_leaves.
+
+Theorem intersection_leaves : forall x y, sorted_cu x -> sorted_cu y ->
+  normal (cu_FromIntersection x y) /\
+  forall t, leaf t -> (cov (cu_FromIntersection x y) t <-> cov x t /\ cov y t).
+Proof. exact C11_SetOps.intersection_spec. Qed.
+Print Assumptions intersection_leaves.
